@@ -375,11 +375,41 @@ def ensure_env():
         tests_env.configure()
 
 
-def compile_script(text):
+class CompilerHangs(Exception):
+    pass
+
+
+class time_limit:
+    """with time_limit(5): ...  raises CompilerHangs in the main thread when the body runs longer (pure-Python loops)"""
+
+    def __init__(self, seconds):
+        self.seconds = seconds
+
+    def __enter__(self):
+        import signal
+        import threading
+        self.active = threading.current_thread() is threading.main_thread()
+        if self.active:
+            def on_alarm(signum, frame):
+                raise CompilerHangs('no result after %s s' % self.seconds)
+            self.old = signal.signal(signal.SIGALRM, on_alarm)
+            signal.setitimer(signal.ITIMER_REAL, self.seconds)
+        return self
+
+    def __exit__(self, *a):
+        import signal
+        if self.active:
+            signal.setitimer(signal.ITIMER_REAL, 0)
+            signal.signal(signal.SIGALRM, self.old)
+        return False
+
+
+def compile_script(text, limit=10):
     from bardolph.parser.parse import Parser
     ensure_env()
     parser = Parser()
-    ok = parser.parse(text)
+    with time_limit(limit):
+        ok = parser.parse(text)
     return (parser.get_program() if ok else None), parser.get_errors()
 
 
